@@ -373,12 +373,15 @@ def run_specs(ctx, specs):
 
 
 PARTIAL = [
-    "stop_bounds_projected_gradient_partial / stop_mode_guarantees: epsilon-optimality of the returned estimate is proved in terms of "
-    "the stopping threshold AND the run-dependent accepted step size alpha and gradient norm of the last iteration "
-    "(f(x_next) - f(z) <= stopDelta * (|grad f(x)| + mu |z - x|)); an a-priori bound (lower bound on alpha from a Lipschitz constant "
-    "of the gradient, termination before the iteration limit) is not proved",
-    "the SCS solver is not modelled: only the objective handed to CVXPY is (cvxSquaredError / cvxRelativeEntropy); the agreement "
-    "of the two estimators is an oracle observation",
+    "stop_bounds_projected_gradient_partial: window 1, default rule, residual bound only; superseded by stop_mode_guarantees "
+    "(all four rules, any window >= 1: f(x_next) - f(z) <= stopDelta * (|grad f(x)| + mu |z - x|))",
+    "finite stopping is proved for the projected-gradient rule with window 1 (pgdb_projected_gradient_rule_iterations, L-smooth "
+    "losses on C, i.e. se / fse); for the step-size rule only the counting bound pgdb_long_steps_bounded under an explicit "
+    "hypothesis; nothing for the two loss-difference rules or windows > 1",
+    "the convexity hypotheses are pointwise on C; the relative-entropy losses (clipped at 1e-10) satisfy them only where the model "
+    "probabilities of observed outcomes exceed the clip, and satisfy no uniform smoothness bound: the smoothness group covers se / fse",
+    "the SCS solver is not modelled: only the objectives handed to CVXPY are (cvx_se_equal_shots, cvx_re_equal_shots); the agreement "
+    "of the two estimators is an oracle observation; momentum / FISTA optimality is not claimed",
     "IsProjOn (the installed projection is the metric projection onto the physical set) is a hypothesis: C04/C05; it fails for "
     "POVM / measurement-process tomography with on_para_eq_constraint=True (pg_descent_dir_fails_via_stacked, finding D13)",
 ]
@@ -468,7 +471,18 @@ def correspondence(ctx):
                 ps = [np.array(qt.get_coeffs_1st_mat(i)) @ var + np.array(qt.get_coeffs_0th_vec(i)) for i in range(nsched)]
                 qs = [np.array(d, dtype=float) for d in loss.prob_dists_data]
                 if op == "cvxse":
-                    plain = float(np.sum((np.concatenate(ps) - np.concatenate(qs)) ** 2))
+                    # the right-hand side of cvx_se_equal_shots is the loss the projected-gradient estimators minimise: take it
+                    # from quara's own generic and fast squared-error loss objects (identity weights), not from a formula here
+                    vals_q = []
+                    for fam_ in ("se", "fse"):
+                        Lq, LOq = L.LOSSES[fam_]
+                        lq = Lq(qt.num_variables)
+                        lq.set_from_standard_qtomography_option_data(qt, LOq("identity"), [(n_, np.array(d_, dtype=float)) for (n_, _), d_ in zip(empi, qs)],
+                                                                     True, False)
+                        vals_q.append(float(lq.value(np.array(var, dtype=float))))
+                    plain = vals_q[0]
+                    if abs(vals_q[0] - vals_q[1]) > 1e-9 * max(1.0, abs(plain)):
+                        ctx.disagree("cvxse", (kind, equal, rep), vals_q, "generic and fast squared-error loss differ")
                     i = drv.ask("cvxse", qlist(nums), lists(ps), lists(qs))
                     pend.append(("cvxse", (kind, equal, rep), (impl, plain, equal, nsched), i))
                 else:
